@@ -2,6 +2,7 @@ import WhatIs.Model.Ssh1
 import WhatIs.Model.Dispatch
 import WhatIs.Model.Asn1Raw
 import WhatIs.Model.Walk
+import WhatIs.Model.OpenSsh
 import WhatIs.Props.C14
 import WhatIs.Props.C16
 import WhatIs.Lemmas.Robust
@@ -57,6 +58,22 @@ theorem ssh1_behind_magic :
     ∀ row ∈ Gen.filetypes, row.parser = "SSH1PrivateKey" →
       row.patterns = [] ∧ row.identify = none ∧ row.magics = [Ssh1.header] := by decide
 
+/-- the regenerated guard facts of the OpenSSH KDF-options reader -/
+theorem openssh_guards_in_force : Gen.kdfOptsLengthGuard = true ∧ Gen.kdfOptsWideSum = true := by decide
+
+/-- OpenSSH private key container: for every PEM body and every behaviour of the public-key parser the description is
+    built or an error returned — the KDF options (salt length up to 2^32-1) cannot make a slice run out of range -/
+theorem openssh_no_panic (pubAttrs : Bytes → Option (List Attr)) (der : Bytes) :
+    (OpenSsh.parse pubAttrs der).isPanic = false := by
+  unfold OpenSsh.parse
+  rw [openssh_guards_in_force.1, openssh_guards_in_force.2]
+  exact Lemmas.Robust.openssh_no_panic pubAttrs der
+
+/-- WITNESS (finding D45): with the sum taken in 32 bits, KDF options FF FF FF FC pass the length check and panic -/
+theorem openssh_panic_witness :
+    OpenSsh.parseKdfOptionsB false false [255, 255, 255, 252] [0, 0, 0, 1] = .panic ∧
+    OpenSsh.parseKdfOptionsB true true [255, 255, 255, 252] [0, 0, 0, 1] = .invalid := by decide
+
 /-- ASN.1: the recursion of `ParseRaw` is on strictly fewer bytes, so it terminates — any fuel above the input length
     yields the same result -/
 theorem asn1_recursion_terminates (data : Bytes) (f g : Nat) (hf : data.length < f) (hg : data.length < g) :
@@ -75,5 +92,8 @@ example : ∃ i, inspect (α := Nat) ⟨fun _ => true, fun _ => .err⟩ 0 [120] 
 /-- a well-formed unencrypted SSH1 key is accepted by the model -/
 example : (Ssh1.parsePrivateKeyB true id (Ssh1.header ++ [0, 0,0,0,0, 0,0,0,0, 0,8,200, 0,8,17, 0,0,0,1,99, 1,2,1,2, 0,8,5, 0,8,6, 0,8,7, 0,8,11])).1
     = .ok 200 [99] := by decide
+
+/-- a well-formed encrypted container is described with its KDF rounds -/
+example : OpenSsh.parseKdfOptionsB true true ([0, 0, 0, 2, 7, 9] ++ [0, 0, 0, 16]) [0, 0, 0, 1] = .rounds [7, 9] 16 := by decide
 
 end WhatIs.C01
